@@ -457,7 +457,12 @@ func (x *Exec) rangeFact(t T) string {
 	switch u := t.Ty.Underlying().(type) {
 	case *types.Slice:
 		_ = u
-		return fmt.Sprintf("(and (>= (slc-len %s) 0) (>= (slc-off %s) 0) (<= (slc-len %s) 4611686018427387904))", t.S, t.S, t.S)
+		off := slcOff(t.S)
+		offFact := "true"
+		if off != "0" {
+			offFact = fmt.Sprintf("(>= %s 0)", off)
+		}
+		return and(fmt.Sprintf("(>= %s 0)", slcLen(t.S)), offFact, fmt.Sprintf("(<= %s 4611686018427387904)", slcLen(t.S)))
 	case *types.Map:
 		return fmt.Sprintf("(>= (mp-card %s) 0)", t.S)
 	case *types.Struct:
